@@ -4,7 +4,7 @@
 //! each listed j the number of second words with y >= j (a prefix: y decreases in v).  TraceRejection.tla compares with the table.
 use crate::rng::ScriptRng;
 use crate::util::*;
-use rand_distr::{Beta, Binomial, Distribution, Exp1, Gamma, Hypergeometric, Poisson, StandardNormal};
+use rand_distr::{Beta, Binomial, Distribution, Exp1, Gamma, Hypergeometric, Poisson, StandardNormal, Zeta, Zipf};
 use serde_json::{json, Value};
 use std::io::{BufRead, Write};
 
@@ -47,6 +47,32 @@ pub fn drive(args: &[String]) -> i32 {
             match res {
                 Ok(evs) => for mut e in evs { e["res"] = json!("Ok"); out.push(e.to_string()); },
                 Err(p) => out.push(json!({"op": "h2pe1", "case": id, "k": 0, "res": format!("Panic: {}", p), "out": -1, "accepted_at_zero": false, "T": [0]}).to_string()),
+            }
+            continue;
+        }
+        if c.get("kernel").and_then(|k| k.as_str()) == Some("rej64") {
+            // Zipf<f64> / Zeta<f64>: first word = proposal, accepting second uniform words are a prefix
+            let fam = c["fam"].as_str().unwrap().to_string();
+            let ps: Vec<f64> = c["params"].as_array().unwrap().iter().map(|x| x.as_str().unwrap().parse().unwrap()).collect();
+            let ws: Vec<u64> = c["ws"].as_array().unwrap().iter().map(|x| x.as_str().unwrap().parse().unwrap()).collect();
+            let res = guarded(|| -> Vec<Value> {
+                let zipf = if fam == "Zipf" { Some(Zipf::<f64>::new(ps[0], ps[1]).expect("constructor")) } else { None };
+                let zeta = if fam == "Zeta" { Some(Zeta::<f64>::new(ps[0]).expect("constructor")) } else { None };
+                let mut r = ScriptRng::new(vec![0, 0], 0);
+                let mut call = |w1: u64, w2: u64| -> (f64, u64) { r.prefix[0] = w1; r.prefix[1] = w2; r.pos = 0; r.state = 31 ^ w2; r.n32 = 0; r.n64 = 0; r.nbytes = 0;
+                    let o = match (&zipf, &zeta) { (Some(d), _) => d.sample(&mut r), (_, Some(d)) => d.sample(&mut r), _ => f64::NAN }; (o, r.words()) };
+                let mut evs = vec![];
+                for (i, &w1) in ws.iter().enumerate() {
+                    let (o0, n0) = call(w1, 0);
+                    let t = first_true(0, ALL, |w| call(w1, w as u64).1 != 2);
+                    evs.push(json!({"op": "rej64", "case": id, "i": i + 1, "accepted_at_zero": n0 == 2, "x": if o0 >= 0.0 && o0 < 9007199254740992.0 && o0.fract() == 0.0 { format!("{}", o0 as u64) } else { "-1".to_string() },
+                                    "T": l14(t), "show": [format!("{:e}", o0), format!("{:.12}", t as f64 / 18446744073709551616.0)]}));
+                }
+                evs
+            });
+            match res {
+                Ok(evs) => for mut e in evs { e["res"] = json!("Ok"); out.push(e.to_string()); },
+                Err(p) => out.push(json!({"op": "rej64", "case": id, "i": 0, "accepted_at_zero": false, "x": "-1", "T": [0], "res": format!("Panic: {}", p)}).to_string()),
             }
             continue;
         }
